@@ -3,7 +3,7 @@
    declaration in the quantifier. Written after seeded change C17-J (a key that is primary AND shard
    dropped out of List's path while Get / Events kept it): the clause about List was only in the
    Part-B theorem C17_list_path (literal default base path); this one has no base-path hypothesis. *)
-From Coq Require Import String Ascii List NArith Bool.
+From Coq Require Import String Ascii List NArith Bool PeanoNat.
 From J5V.lib Require Import Outcome Strcase.
 From J5V.model Require Import Entity.
 From J5V.proofs Require Import StrcaseProofs EntityProofs EntitySpec EntitySpecProofs.
@@ -120,3 +120,67 @@ Lemma key_flags_sample_ok :
   /\ path_key_names key_flags_sample = [bs "foo_id"; bs "both_id"; bs "shard_id"]
   /\ nth 1 (query_paths key_flags_sample) [] = bs "/foo/v1/foo/q/{both_id}/{shard_id}".
 Proof. repeat split; vm_compute; reflexivity. Qed.
+
+(* ---- the List request: the shard keys, then page and query; the key fields are the very fields of
+   the Get and Events requests (same type, key options, required / optional flags) --------------- *)
+Definition spec_list_request (e : entity) (cs : list component) : Prop :=
+  forall s g l v, In s (svcs_in cs 1) -> is_query_svc s = true -> sv_methods s = [g; l; v] ->
+    exists mg ml mv,
+      has_msg cs 1 mg /\ m_name mg = mt_in g /\ has_msg cs 1 ml /\ m_name ml = mt_in l
+      /\ has_msg cs 1 mv /\ m_name mv = mt_in v
+      /\ map f_json (m_fields ml)
+         = map key_name (filter key_in_list (e_keys e)) ++ [bs "page"; bs "query"]
+      /\ (forall f, In f (firstn (length (shard_key_names e)) (m_fields ml)) ->
+            In f (m_fields mg) /\ In f (m_fields mv)).
+
+Lemma list_request_shape : forall e,
+  exists g l v,
+    query_svc e = mkSvc (query_prefix e ++ bs "QueryService") (SQuery (snake_name e)) [g; l; v]
+    /\ In (CMsg 1 (mkMsg (mt_in g) None false (map of_ufield (get_keys e)) [])) (query_components e)
+    /\ In (CMsg 1 (mkMsg (mt_in l) None false (map of_ufield (list_keys e) ++ [page_request; query_request]) []))
+          (query_components e)
+    /\ In (CMsg 1 (mkMsg (mt_in v) None false (map of_ufield (get_keys e) ++ [page_request; query_request]) []))
+          (query_components e).
+Proof.
+  intros e. unfold query_svc, query_components, service_components.
+  rewrite svcs_in_app, svcs_in_flat_map. cbn [flat_map]. rewrite !svcs_in_method_msgs.
+  cbn [app svcs_in flat_map N.eqb Pos.eqb map snd method_components]. do 3 eexists.
+  split; [rewrite <- app_assoc; reflexivity|].
+  cbn [mt_name mt_sq mt_verb mt_path mt_in map fst]. repeat split.
+  - cbn [app In]. left. reflexivity.
+  - cbn [app In]. do 2 right. left. reflexivity.
+  - cbn [app In]. do 4 right. left. reflexivity.
+Qed.
+
+Lemma map_json_of_ufield : forall us, map f_json (map of_ufield us) = map uf_name us.
+Proof.
+  induction us as [|u us IH]; [reflexivity|]. cbn [map]. rewrite IH. f_equal.
+  destruct (of_ufield_key u) as [H _]. exact H.
+Qed.
+
+Theorem spec_list_request_holds : forall e fl, spec_list_request e (expand_with e fl).
+Proof.
+  intros e fl s g l v Hs Hq Hm. rewrite svcs_in_expand_1 in Hs.
+  destruct (list_request_shape e) as [g' [l' [v' [Hshape [Hg [Hl Hv]]]]]].
+  destruct Hs as [<-|Hs].
+  2:{ apply in_map_iff in Hs. destruct Hs as [c [<- _]]. discriminate. }
+  rewrite Hshape in Hm. cbn [sv_methods] in Hm. inversion Hm; subst g' l' v'.
+  eexists; eexists; eexists.
+  split; [apply (in_expand_query e fl _ Hg)|]. split; [reflexivity|].
+  split; [apply (in_expand_query e fl _ Hl)|]. split; [reflexivity|].
+  split; [apply (in_expand_query e fl _ Hv)|]. split; [reflexivity|].
+  cbn [m_fields]. split.
+  - rewrite map_app, map_json_of_ufield. unfold list_keys. rewrite map_map. reflexivity.
+  - intros f Hf.
+    assert (Hlen : length (shard_key_names e) = length (map of_ufield (list_keys e))).
+    { unfold shard_key_names, list_keys. rewrite !map_length. reflexivity. }
+    rewrite Hlen, firstn_app, Nat.sub_diag, firstn_all in Hf. cbn [firstn] in Hf. rewrite app_nil_r in Hf.
+    apply in_map_iff in Hf. destruct Hf as [u [<- Hu]]. apply list_keys_incl_get_keys in Hu.
+    split; [|apply in_or_app; left]; apply in_map; exact Hu.
+Qed.
+
+Theorem list_request_scoped_by_shard_keys : forall e cs, compile e = Ok cs -> spec_list_request e cs.
+Proof.
+  intros e cs H. destruct (compile_inv e cs H) as [_ [_ [Hl [fl [_ [-> _]]]]]].
+  apply spec_list_request_holds.
+Qed.
